@@ -43,6 +43,21 @@ class Ctx:
         self.fn_seen = set()
         self.callsites_seen = 0
         self.not_decided = []
+        self.cfg = (fb.cfgs[0] if getattr(fb, "cfgs", None) else "D")
+        self._first_pass_keys = None
+        self.fb_total = {"functions": len(fb.fns), "consts": len(fb.consts), "crates": len(fb.crates), "configs": list(fb.cfgs)}
+
+    def next_config(self, cfg, fb):
+        """Thorough tier: decide every rule again on another build configuration. Violations whose key was already
+        reported (with the same multiplicity) on the first configuration are the same construct seen twice and are not
+        repeated; obligations of the second pass are tagged with the configuration."""
+        from collections import Counter
+        self._first_pass_keys = Counter(v["key"] for v in self.violations)
+        self._second_seen = Counter()
+        self.cfg = cfg
+        self.fb = fb
+        self.fb_total["configs"].append(cfg)
+        self.fb_total["functions_" + cfg] = len(fb.fns)
 
     # ---- bookkeeping -----------------------------------------------------------------------
     def rule(self, rid, desc):
@@ -55,14 +70,22 @@ class Ctx:
         if fn is not None:
             self.fn_seen.add(fn.key)
 
+    def _tag(self, instance):
+        return instance if self._first_pass_keys is None else "%s [cfg %s]" % (instance, self.cfg)
+
     def ok(self, rule, instance, detail="", loc=""):
-        self.obligations.append({"rule": rule, "instance": instance, "verdict": "holds",
+        self.obligations.append({"rule": rule, "instance": self._tag(instance), "verdict": "holds",
                                  "detail": detail, "loc": loc})
 
     def violation(self, rule, key, what, loc="", detail=None):
         """key: stable key without line numbers: '<rule>/<kind>/<function>[/<extra>]'."""
         key = re.sub(r"\s+", "_", key)
-        self.obligations.append({"rule": rule, "instance": key, "verdict": "VIOLATED",
+        if self._first_pass_keys is not None:
+            self._second_seen[key] += 1
+            if self._second_seen[key] <= self._first_pass_keys.get(key, 0):
+                return      # the same construct, already reported on the first configuration
+            what = "[cfg %s] %s" % (self.cfg, what)
+        self.obligations.append({"rule": rule, "instance": self._tag(key), "verdict": "VIOLATED",
                                  "detail": what, "loc": loc})
         self.violations.append({"key": key, "rule": rule, "what": what, "loc": loc, "detail": detail})
 
@@ -160,10 +183,11 @@ class Ctx:
                 "rules": self.rules_run,
                 "functions_analysed": len(self.fn_seen),
                 "fact_base": {
-                    "functions_total": len(self.fb.fns),
-                    "consts_total": len(self.fb.consts),
-                    "configs": self.fb.cfgs,
-                    "crates": len(self.fb.crates),
+                    "functions_total": self.fb_total["functions"],
+                    "consts_total": self.fb_total["consts"],
+                    "configs": self.fb_total["configs"],
+                    "crates": self.fb_total["crates"],
+                    "per_config": {k: v for k, v in self.fb_total.items() if k.startswith("functions_")},
                     "extract": self.extract_info,
                 },
                 "counters": self.counters,
